@@ -110,7 +110,7 @@ void run_inject(vf::Ctx &c) {
   std::array<uint8_t, 16> t{};
   std::array<uint8_t, 8> s{};
   uint8_t flags = 0;
-  bool no_span = false;
+  bool no_span = false, product = false;
   switch (c.pick("sweep", c.thorough() ? 5 : 4)) {
     case 0: {  // every flags byte
       flags = (uint8_t)c.pick("flags", 256);
@@ -135,9 +135,10 @@ void run_inject(vf::Ctx &c) {
       t = tids[c.pick("tid", (int)tids.size())];
       s = sids[c.pick("sid", (int)sids.size())];
       flags = few_flags[c.pick("flags", 2)];
+      product = true;
       break;
   }
-  bool remote = !no_span && c.flip("original-is-remote");
+  bool remote = !no_span && !product && c.flip("original-is-remote");
   trace::SpanContext sc = make_sc(t, s, flags, remote);
   context::Context cx = no_span ? context::Context() : ctx_with_span(sc);
   std::string th = hex_lower(t.data(), 16), sh = hex_lower(s.data(), 8);
@@ -153,7 +154,7 @@ void run_inject(vf::Ctx &c) {
   std::string injected = car.show();
 
   c.stage("Extract(injected)");
-  Extracted e = extract_checked(c, *pr, car, c.pick("caller", 2), P);
+  Extracted e = extract_checked(c, *pr, car, product ? 1 : c.pick("caller", 2), P);
   c.step();
   if (!valid) {
     VFP_CHECK(c, !e.installed, P + ":invalid-context-propagated", "Inject of an invalid span context (" + what + ") wrote " + injected + ", which Extract installs as " + e.canon());
@@ -230,7 +231,7 @@ void run_extract(vf::Ctx &c) {
   for (auto &kv : sd[si].h) hdr[kv.first] = kv.second;
   std::string desc = vf::sfmt("%s seed%d", format == 0 ? "b3-single" : format == 1 ? "b3-multi" : "jaeger", si);
   // two mutations (thorough): on the core seeds only, second mutation over the reduced alphabet
-  static const std::vector<int> core[3] = {{0, 3, 5, 6}, {0, 7}, {0, 2, 5}};
+  static const std::vector<int> core[3] = {{0, 5, 6}, {0}, {0, 5}};
   bool is_core = false;
   for (int k : core[format]) is_core |= (k == si);
   int nm = c.pick("mutations", (c.thorough() && is_core ? 2 : 1) + 1);
